@@ -16,7 +16,7 @@ TraceParInit == IsEvent("ParInit") /\ buf' = Rec[l].buf /\ off' = Rec[l].off /\ 
 (* only writes representable ones); the call must succeed iff the field fits    *)
 TracePut == /\ IsEvent("Put")
             /\ LET r == Rec[l] IN
-               /\ r.ok \in BOOLEAN                      \* a panic is recorded as a string
+               /\ r.panic = ""                           \* a panic is never a BitIO step
                /\ Len(r.vbits) = r.carrier /\ Repr(r.kind, r.vbits, r.w)
                /\ IF r.ok THEN Put(r.kind, r.vbits, r.w) ELSE PutOvf(r.w)
                /\ r.off_after = off'
@@ -25,25 +25,29 @@ TracePut == /\ IsEvent("Put")
 (* field's content is adopted from the buffer logged at the AsmEnd that closes the session                    *)
 TracePutAny == /\ IsEvent("PutAny")
                /\ LET r == Rec[l] IN
-                  /\ (r.ok \in BOOLEAN /\ Len(r.vbits) = r.carrier /\ r.w >= 1 /\ r.w <= r.carrier) = TRUE
+                  /\ (r.panic = "" /\ Len(r.vbits) = r.carrier /\ r.w >= 1 /\ r.w <= r.carrier) = TRUE
                   /\ IF r.ok THEN /\ Fits(buf, off, r.w) /\ off' = off + r.w /\ UNCHANGED buf
                                   /\ last' = [out |-> "any", val |-> <<off, r.w>>]
                      ELSE PutOvf(r.w)
                   /\ r.off_after = off'
+(* a panic on a value that is not representable in its width says nothing about C07 (it is C09's business): *)
+(* the observation is accepted and the rest of the session is not judged                                     *)
+TracePutAnyPanic == /\ IsEvent("PutAnyPanic") /\ last' = [out |-> "lost", val |-> <<>>] /\ UNCHANGED <<buf, off>>
 OutsideSame(a, b, o, w) == /\ Len(a) = Len(b)
                            /\ \A g \in 0..(8 * Len(a) - 1) : (g < o \/ g >= o + w) => BitAt(a, g) = BitAt(b, g)
 TraceAsmEnd == /\ IsEvent("AsmEnd")
-               /\ IF last.out = "any"
+               /\ IF last.out = "lost" THEN buf' = Rec[l].buf /\ UNCHANGED <<off, last>>
+                  ELSE IF last.out = "any"
                   THEN OutsideSame(Rec[l].buf, buf, last.val[1], last.val[2]) = TRUE /\ buf' = Rec[l].buf /\ UNCHANGED <<off, last>>
                   ELSE Rec[l].buf = buf /\ UNCHANGED ioVars
 TraceParse == /\ IsEvent("Parse")
               /\ LET r == Rec[l] IN
-                 /\ r.ok \in BOOLEAN
+                 /\ r.panic = ""
                  /\ IF r.ok THEN Parse(r.kind, r.w, r.carrier) /\ last'.val = r.vbits ELSE ParseOvf(r.w)
                  /\ r.off_after = off'
 
 Init == l = 1 /\ buf = <<>> /\ off = 0 /\ last = [out |-> "init", val |-> <<>>]
-Next == TraceAsmInit \/ TraceParInit \/ TracePut \/ TracePutAny \/ TraceAsmEnd \/ TraceParse
+Next == TraceAsmInit \/ TraceParInit \/ TracePut \/ TracePutAny \/ TracePutAnyPanic \/ TraceAsmEnd \/ TraceParse
 
 Explain(r) == [event |-> r.ev, rule |-> "Put: ok iff off+w <= 8*len, cursor += w, exactly the w field bits change (checked at AsmEnd); Parse: value = bits at the cursor decoded per kind; overflow changes nothing"]
 Accepted == LET d == TLCGet("stats").diameter IN
